@@ -21,7 +21,7 @@ Definition praw (t:tree) : list tok :=
   | Lit l => [F (raw_of_lit l)]
   | Var s => [F (RIdent s)]
   | Nul s => [F (raw_of_name s)]
-  | Un s a => F (raw_of_name s) :: P N a
+  | Un s a => F (raw_of_name s) :: P NLEV a
   | Bin j s l r => P j l ++ F (raw_of_name s) :: P (S j) r
   | Arr es => F RSquareO :: join [F RComma] (map (P 0%nat) es) ++ [F RSquareC]
   | Code ss => F RCurlyO :: PB ss ++ [F RCurlyC]
@@ -33,7 +33,7 @@ Proof. destruct t; reflexivity. Qed.
 
 Lemma pr_stmt_unfold s : PS s = match s with
   | SExpr e => P 0%nat e
-  | SAssign x e => P N x ++ F REqual :: P 0%nat e
+  | SAssign x e => P NLEV x ++ F REqual :: P 0%nat e
   | SLocal x e => F (RPrivate kw_private) :: F (RIdent x) :: F REqual :: P 0%nat e
   end.
 Proof. destruct s; reflexivity. Qed.
@@ -53,11 +53,11 @@ Lemma size_stmt_unfold s : size_stmt s = match s with
   | SExpr e => S (size e) | SAssign x e => S (size x + size e) | SLocal _ e => S (size e) end.
 Proof. destruct s; reflexivity. Qed.
 
-Lemma lvl_le_N t : wf_tree R t -> (lvl t <= N)%nat.
+Lemma lvl_le_N t : wf_tree R t -> (lvl t <= NLEV)%nat.
 Proof.
-  destruct t; cbn [lvl]; unfold N; try lia. unfold wf_tree. cbn [wfb]. intros H.
+  destruct t; cbn [lvl]; unfold NLEV; try lia. unfold wf_tree. cbn [wfb]. intros H.
   apply andb_prop in H. destruct H as [H _]. apply andb_prop in H. destruct H as [H _].
-  apply andb_prop in H. destruct H as [H _]. apply Nat.ltb_lt in H. unfold N in H. lia.
+  apply andb_prop in H. destruct H as [H _]. apply Nat.ltb_lt in H. unfold NLEV in H. lia.
 Qed.
 
 Lemma pr_raw_eq k t : (k < lvl t)%nat -> P k t = P (S k) t.
@@ -114,11 +114,11 @@ Proof.
   destruct (Nat.eqb_spec j k); [lia|reflexivity].
 Qed.
 
-Lemma p_exp_lt f k ts : (k < N)%nat ->
+Lemma p_exp_lt f k ts : (k < NLEV)%nat ->
   p_exp d (S f) k ts = match p_exp d f (S k) ts with POk (l, r) => p_loop d f k l r | PErr => PErr | POut => POut end.
-Proof. intros H. rewrite p_exp_S. destruct (Nat.leb_spec N k); [lia|reflexivity]. Qed.
+Proof. intros H. rewrite p_exp_S. destruct (Nat.leb_spec NLEV k); [lia|reflexivity]. Qed.
 
-Lemma climb f k ts a X : (k < N)%nat -> stops k X ->
+Lemma climb f k ts a X : (k < NLEV)%nat -> stops k X ->
   p_exp d f (S k) ts = POk (a, X) -> p_exp d (S (S f)) k ts = POk (a, X).
 Proof.
   intros Hk HX E. rewrite p_exp_lt by assumption.
@@ -126,7 +126,7 @@ Proof.
 Qed.
 
 (* from level hi down to level lo, as long as the printed form does not change and the loops stop *)
-Lemma climb_many t a X : forall n lo hi, (hi - lo = n)%nat -> (lo <= hi)%nat -> (hi <= N)%nat ->
+Lemma climb_many t a X : forall n lo hi, (hi - lo = n)%nat -> (lo <= hi)%nat -> (hi <= NLEV)%nat ->
   (forall j, (lo <= j < hi)%nat -> P j t = P (S j) t) -> stops lo X ->
   (exists f, p_exp d f hi (P hi t ++ X) = POk (a, X)) ->
   exists f, p_exp d f lo (P lo t ++ X) = POk (a, X).
@@ -144,9 +144,9 @@ Definition unary_tok (t:tok) : bool :=
   match t with TPrivate _ | TOp CU _ | TOp (CBU _) _ | TOp (CBUN _) _ | TOp CUN _ => true | _ => false end.
 
 Lemma p_exp_unary f t r a r' : unary_tok t = true -> next_starts_expu r = true ->
-  p_exp d f N r = POk (a, r') -> p_exp d (S f) N (t :: r) = POk (Un (tok_name t) a, r').
+  p_exp d f NLEV r = POk (a, r') -> p_exp d (S f) NLEV (t :: r) = POk (Un (tok_name t) a, r').
 Proof.
-  intros Hu Hn E. rewrite p_exp_S. change (N <=? N)%nat with true. cbv iota.
+  intros Hu Hn E. rewrite p_exp_S. change (NLEV <=? NLEV)%nat with true. cbv iota.
   destruct t; try discriminate; try (rewrite E; reflexivity).
   destruct c; try discriminate; try rewrite Hn; rewrite E; reflexivity.
 Qed.
@@ -159,28 +159,28 @@ Definition value_tok (t:tok) : option tree :=
   | TTrue s => Some (Lit (LTrue s)) | TFalse s => Some (Lit (LFalse s))
   | _ => None
   end.
-Lemma p_exp_value f t r v : value_tok t = Some v -> p_exp d (S f) N (t :: r) = POk (v, r).
+Lemma p_exp_value f t r v : value_tok t = Some v -> p_exp d (S f) NLEV (t :: r) = POk (v, r).
 Proof.
-  intros H. rewrite p_exp_S. change (N <=? N)%nat with true. cbv iota.
+  intros H. rewrite p_exp_S. change (NLEV <=? NLEV)%nat with true. cbv iota.
   destruct t; try discriminate; try (injection H as <-; reflexivity).
   destruct c; try discriminate; injection H as <-; reflexivity.
 Qed.
 
 Lemma p_exp_paren f r e r' : p_exp d f 0%nat r = POk (e, TRoundC :: r') ->
-  p_exp d (S f) N (TRoundO :: r) = POk (e, r').
-Proof. intros E. rewrite p_exp_S. change (N <=? N)%nat with true. cbv iota. rewrite E. reflexivity. Qed.
+  p_exp d (S f) NLEV (TRoundO :: r) = POk (e, r').
+Proof. intros E. rewrite p_exp_S. change (NLEV <=? NLEV)%nat with true. cbv iota. rewrite E. reflexivity. Qed.
 
 Lemma p_exp_code f r ss r' : p_stmts d f r = POk (ss, TCurlyC :: r') ->
-  p_exp d (S f) N (TCurlyO :: r) = POk (Code ss, r').
-Proof. intros E. rewrite p_exp_S. change (N <=? N)%nat with true. cbv iota. rewrite E. reflexivity. Qed.
+  p_exp d (S f) NLEV (TCurlyO :: r) = POk (Code ss, r').
+Proof. intros E. rewrite p_exp_S. change (NLEV <=? NLEV)%nat with true. cbv iota. rewrite E. reflexivity. Qed.
 
-Lemma p_exp_arr0 f r : p_exp d (S f) N (TSquareO :: TSquareC :: r) = POk (Arr [], r).
+Lemma p_exp_arr0 f r : p_exp d (S f) NLEV (TSquareO :: TSquareC :: r) = POk (Arr [], r).
 Proof. rewrite p_exp_S. reflexivity. Qed.
 
 Lemma p_exp_arr f t r es r' : t <> TSquareC -> p_items d f (t :: r) = POk (es, r') ->
-  p_exp d (S f) N (TSquareO :: t :: r) = POk (Arr es, r').
+  p_exp d (S f) NLEV (TSquareO :: t :: r) = POk (Arr es, r').
 Proof.
-  intros Ht E. rewrite p_exp_S. change (N <=? N)%nat with true. cbv iota.
+  intros Ht E. rewrite p_exp_S. change (NLEV <=? NLEV)%nat with true. cbv iota.
   destruct t; try congruence; rewrite E; reflexivity.
 Qed.
 
@@ -200,7 +200,7 @@ Proof.
   - apply name_tok_op in E. subst. destruct c; try discriminate; auto.
 Qed.
 
-Lemma head_raw t : wf_tree R t -> lvl t = N -> head_ok (praw t).
+Lemma head_raw t : wf_tree R t -> lvl t = NLEV -> head_ok (praw t).
 Proof.
   unfold wf_tree. destruct t; cbn [wfb lvl praw]; intros H HN.
   - destruct l; eexists _, _; (split; [reflexivity|reflexivity]).
@@ -248,7 +248,7 @@ Proof. induction ss; cbn; intros []; subst; [lia|]. specialize (IHss H). lia. Qe
 Definition GoodAt (k:nat) (t:tree) : Prop :=
   forall X, stops k X -> exists f, p_exp d f k (P k t ++ X) = POk (strip t, X).
 Definition CAt (t:tree) : Prop :=
-  (lvl t < N)%nat -> forall X res, stops (S (lvl t)) X ->
+  (lvl t < NLEV)%nat -> forall X res, stops (S (lvl t)) X ->
   (exists f, p_loop d f (lvl t) (strip t) X = POk res) ->
   exists f, p_exp d f (lvl t) (P (lvl t) t ++ X) = POk res.
 Definition stmt_end (X:list tok) : Prop :=
@@ -380,7 +380,7 @@ Qed.
 
 (* ---------- the main induction ---------- *)
 Lemma wf_bin k s l r : wf_tree R (Bin k s l r) ->
-  (k < N)%nat /\ binlevel (name_tok R s) = Some k /\ tok_name (name_tok R s) = s /\ wf_tree R l /\ wf_tree R r.
+  (k < NLEV)%nat /\ binlevel (name_tok R s) = Some k /\ tok_name (name_tok R s) = s /\ wf_tree R l /\ wf_tree R r.
 Proof.
   unfold wf_tree. cbn [wfb]. intros H.
   apply andb_prop in H. destruct H as [H Hr]. apply andb_prop in H. destruct H as [H Hl].
@@ -391,16 +391,16 @@ Proof.
 Qed.
 
 Theorem parse_print_main : forall n,
-  (forall t, (size t <= n)%nat -> wf_tree R t -> CAt t /\ forall k, (k <= N)%nat -> GoodAt k t) /\
+  (forall t, (size t <= n)%nat -> wf_tree R t -> CAt t /\ forall k, (k <= NLEV)%nat -> GoodAt k t) /\
   (forall s, (size_stmt s <= n)%nat -> wfb_stmt R s = true -> GoodS s).
 Proof.
   induction n as [|n [IHt IHs]].
   { split; intros x Hsz; [destruct x|destruct x]; cbn in Hsz; lia. }
-  assert (TREE: forall t, (size t <= S n)%nat -> wf_tree R t -> CAt t /\ forall k, (k <= N)%nat -> GoodAt k t).
+  assert (TREE: forall t, (size t <= S n)%nat -> wf_tree R t -> CAt t /\ forall k, (k <= NLEV)%nat -> GoodAt k t).
   { intros t Hsz Hwf.
     (* C: continuation claim for an unparenthesised binary node *)
     assert (HC: CAt t).
-    { unfold CAt. destruct t as [| | | |j s l r| | |]; cbn [lvl]; try (unfold N; lia).
+    { unfold CAt. destruct t as [| | | |j s l r| | |]; cbn [lvl]; try (unfold NLEV; lia).
       intros Hj X res HX [fl EL].
       destruct (wf_bin _ _ _ _ Hwf) as (_ & Hbl & Hnm & Hwl & Hwr).
       cbn [size] in Hsz.
@@ -446,7 +446,7 @@ Proof.
       - unfold wf_tree in Hwf. cbn [wfb] in Hwf. apply andb_prop in Hwf. destruct Hwf as [Hu Hwa].
         destruct (wf_un_tok _ Hu) as (H1 & H2 & H3).
         cbn [size] in Hsz. destruct (IHt a ltac:(lia) Hwa) as [_ Ga].
-        destruct (Ga N ltac:(lia) X HX) as [f E].
+        destruct (Ga NLEV ltac:(lia) X HX) as [f E].
         exists (S f). rewrite pr_at_lvl by (cbn; lia). cbn [praw app strip]. fold (name_tok R s).
         rewrite <- H3 at 2. apply p_exp_unary; auto.
         apply head_ok_next. apply head_ok_app. apply head_pr. exact Hwa.
@@ -494,8 +494,8 @@ Proof.
       apply (climb_many t (strip t) X (lvl t - k) k (lvl t)); auto.
       + intros j Hj. apply pr_raw_eq. lia.
       + apply Q. eapply stops_mono; eauto.
-    - (* parenthesised: the group is read at level N *)
-      apply (climb_many t (strip t) X (N - k) k N); auto.
+    - (* parenthesised: the group is read at level NLEV *)
+      apply (climb_many t (strip t) X (NLEV - k) k NLEV); auto.
       + intros j Hj. apply pr_par_eq; lia.
       + assert (G0: GoodAt 0%nat t).
         { intros X0 HX0. apply (climb_many t (strip t) X0 (lvl t - 0) 0%nat (lvl t)); auto; try lia.
